@@ -566,6 +566,8 @@ def shadow_give_up_bound(rep, idx, rule):
     def N(e):
         e = ir.subst(e, lambda x: env.get(x[1]) if x[0] == 'name' and x[1] in env else None)
         e = ir.subst(e, lambda x: env.get(x[1]) if x[0] == 'name' and x[1] in env else None)
+        # the maximum over a sorted copy is the maximum over the collection
+        e = ir.subst(e, lambda x: x[2][0] if x[0] == 'call' and x[1] == ('name', 'sorted') and len(x[2]) == 1 else None)
         return c.norm(e)
     SIZE = {c.norm(c.parse("self._size")), c.norm(c.parse("self.size"))}
     M = c.norm(c.parse("max(r.stop for r in self._ranges)"))
@@ -1194,6 +1196,12 @@ def forwarded_parameters(rep, rule, idx, classes):
                     what = f"{cls.qual}: parameter `{k}` reaches {ir.show(x[1])}({k}=...) as given"
                     if v == ('name', k):
                         rep.ok(rule, init.site, what, "passed through")
+                        continue
+                    # Enum(p): the conversion the signature applies itself, and it is idempotent (Enum(member) is the member)
+                    if v[0] == 'call' and len(v[2]) == 1 and not v[3] and v[2][0] == ('name', k) and \
+                            (ir.show(v[1]).split(".")[-1] in idx.enums or ir.show(v[1]) in idx.enums):
+                        rep.ok(rule, init.site, what, f"converted with {ir.show(v[1])}(...) on the way, which the signature does as well (idempotent)",
+                               nontrivial=False)
                         continue
                     none_test = ct.norm(ct.parse(f"{k} is None"))
                     if v[0] == 'phi' and ir.split_neg(v[1])[0] == ir.split_neg(none_test)[0]:
